@@ -4,6 +4,7 @@
 -/
 import BiscuitModel.Model.Crypto
 import BiscuitModel.Model.Wire
+import BiscuitModel.Lemmas.WireDec
 namespace Biscuit.C02
 open Biscuit
 
@@ -383,5 +384,36 @@ theorem toy_correct : Correct toyScheme := by
     injection h with h; subst h; rfl
 
 example : ∃ c, newToken toyScheme none 0 [1] 1 [2] [10, 11] 3 = some c ∧ c.blocks = [] := ⟨_, rfl, rfl⟩
+
+/-! ## the wire format round-trips -/
+
+/-- **C02, byte level.** Decoding the protobuf encoding of a container — authority block, any
+    number of blocks, third-party signatures, versions, root key id, either kind of proof —
+    gives the container back, for every container whose fields fit their length prefixes.
+    The decoder follows prost (fields in any order, last occurrence wins, repeated fields
+    accumulate); the encoder is the one whose bytes are compared with `to_vec()` on every
+    run. -/
+theorem wire_round_trip (c : Container) (h : Wire.SmallContainer c) :
+    Wire.decContainer (Wire.encContainer c) = some c := Wire.decContainer_enc c h
+
+/-- a three-block token with a third-party block, a version and a sealed proof -/
+example :
+    Wire.decContainer (Wire.encContainer
+      ⟨some 7, ⟨[1, 2], ⟨0, [9]⟩, [3], none, none⟩,
+        [⟨[4], ⟨1, [8, 8]⟩, [5], some ⟨⟨0, [6]⟩, [7]⟩, some 1⟩, ⟨[], ⟨0, []⟩, [], none, some 0⟩], .sealed [1, 1]⟩)
+      = some ⟨some 7, ⟨[1, 2], ⟨0, [9]⟩, [3], none, none⟩,
+        [⟨[4], ⟨1, [8, 8]⟩, [5], some ⟨⟨0, [6]⟩, [7]⟩, some 1⟩, ⟨[], ⟨0, []⟩, [], none, some 0⟩], .sealed [1, 1]⟩ := by
+  apply wire_round_trip
+  refine ⟨(fun k hk => by cases hk; decide), ?_, ?_, ?_⟩
+  · exact ⟨by decide, ⟨by decide, by decide⟩, by decide, (fun e he => by cases he), (fun v hv => by cases hv)⟩
+  · intro b hb
+    simp only [List.mem_cons, List.mem_nil_iff, or_false] at hb
+    rcases hb with rfl | rfl
+    · refine ⟨by decide, ⟨by decide, by decide⟩, by decide, ?_, ?_⟩
+      · intro e he; cases he; exact ⟨⟨by decide, by decide⟩, by decide⟩
+      · intro v hv; cases hv; decide
+    · exact ⟨by decide, ⟨by decide, by decide⟩, by decide, (fun e he => by cases he), (fun v hv => by cases hv; decide)⟩
+  · show ([1, 1] : Bytes).length < 2 ^ 32
+    decide
 
 end Biscuit.C02
